@@ -227,40 +227,54 @@ package argmapper
 // vpos: ghost position of struct field i in the values list
 //@ ghostvar vpos fmap[int,int]
 // vsOK: a value set mirrors struct type T (pointer-stripped) exactly
-//@ ghost vsPart(vs *ValueSet, T reflect.Type, n int) bool =
-//@     vs != nil && vs.structType == T && kindof(T) == 25 && vs.namedValues != nil && vs.typedValues != nil && soff(vs.values) == 0
-//@     && forall(j, int, imp(0 <= j && j < len(vs.values), vs.values[j] != nil && eligible(T, vs.values[j].index) && vs.values[j].index < n && vs.values[j].Type == fieldType(T, vs.values[j].index) && vs.values[j].Name == specName(T, vs.values[j].index) && vs.values[j].Subtype == specSub(T, vs.values[j].index) && !valid(vs.values[j].Value) && vpos[vs.values[j].index] == j))
-//@     && forall(j, int, k, int, imp(0 <= j && j < k && k < len(vs.values), vs.values[j].index < vs.values[k].index && vs.values[j] != vs.values[k]))
-//@     && forall(i, int, imp(eligible(T, i) && i < n, 0 <= vpos[i] && vpos[i] < len(vs.values) && vs.values[vpos[i]].index == i))
-//@     && forall(j, int, imp(0 <= j && j < len(vs.values) && vs.values[j].Name != "", has(vs.namedValues, vs.values[j].Name) && imp(forall(k, int, imp(j < k && k < len(vs.values), vs.values[k].Name != vs.values[j].Name)), vs.namedValues[vs.values[j].Name] == vs.values[j])))
-//@     && forall(j, int, imp(0 <= j && j < len(vs.values) && vs.values[j].Name == "", has(vs.typedValues, vs.values[j].Type) && imp(forall(k, int, imp(j < k && k < len(vs.values) && vs.values[k].Name == "", vs.values[k].Type != vs.values[j].Type)), vs.typedValues[vs.values[j].Type] == vs.values[j])))
-//@     && forall(m, string, imp(has(vs.namedValues, m), vs.namedValues[m] != nil && vs.namedValues[m].Name == m && m != "" && 0 <= vpos[vs.namedValues[m].index] && vpos[vs.namedValues[m].index] < len(vs.values) && vs.values[vpos[vs.namedValues[m].index]] == vs.namedValues[m]))
-//@     && forall(t, reflect.Type, imp(has(vs.typedValues, t), vs.typedValues[t] != nil && vs.typedValues[t].Type == t && vs.typedValues[t].Name == "" && 0 <= vpos[vs.typedValues[t].index] && vpos[vs.typedValues[t].index] < len(vs.values) && vs.values[vpos[vs.typedValues[t].index]] == vs.typedValues[t]))
+//@ ghost vsP0(vs *ValueSet, T reflect.Type, n int) bool = vs != nil && vs.structType == T && kindof(T) == 25 && vs.namedValues != nil && vs.typedValues != nil && soff(vs.values) == 0
+//@ ghost vsP1(vs *ValueSet, T reflect.Type, n int) bool = forall(j, int, imp(0 <= j && j < len(vs.values), vs.values[j] != nil && eligible(T, vs.values[j].index) && vs.values[j].index < n && vs.values[j].Type == fieldType(T, vs.values[j].index) && vs.values[j].Name == specName(T, vs.values[j].index) && vs.values[j].Subtype == specSub(T, vs.values[j].index) && !valid(vs.values[j].Value) && vpos[vs.values[j].index] == j))
+//@ ghost vsP2(vs *ValueSet, T reflect.Type, n int) bool = forall(j, int, k, int, imp(0 <= j && j < k && k < len(vs.values), vs.values[j].index < vs.values[k].index && vs.values[j] != vs.values[k]))
+//@ ghost vsP3(vs *ValueSet, T reflect.Type, n int) bool = forall(i, int, imp(eligible(T, i) && i < n, 0 <= vpos[i] && vpos[i] < len(vs.values) && vs.values[vpos[i]].index == i))
+//@ ghost vsP4(vs *ValueSet, T reflect.Type, n int) bool = forall(j, int, imp(0 <= j && j < len(vs.values) && vs.values[j].Name != "", has(vs.namedValues, vs.values[j].Name) && imp(forall(k, int, imp(j < k && k < len(vs.values), vs.values[k].Name != vs.values[j].Name)), vs.namedValues[vs.values[j].Name] == vs.values[j])))
+//@ ghost vsP5(vs *ValueSet, T reflect.Type, n int) bool = forall(j, int, imp(0 <= j && j < len(vs.values) && vs.values[j].Name == "", has(vs.typedValues, vs.values[j].Type) && imp(forall(k, int, imp(j < k && k < len(vs.values) && vs.values[k].Name == "", vs.values[k].Type != vs.values[j].Type)), vs.typedValues[vs.values[j].Type] == vs.values[j])))
+//@ ghost vsP6(vs *ValueSet, T reflect.Type, n int) bool = forall(m, string, imp(has(vs.namedValues, m), vs.namedValues[m] != nil && vs.namedValues[m].Name == m && m != "" && 0 <= vpos[vs.namedValues[m].index] && vpos[vs.namedValues[m].index] < len(vs.values) && vs.values[vpos[vs.namedValues[m].index]] == vs.namedValues[m]))
+//@ ghost vsP7(vs *ValueSet, T reflect.Type, n int) bool = forall(t, reflect.Type, imp(has(vs.typedValues, t), vs.typedValues[t] != nil && vs.typedValues[t].Type == t && vs.typedValues[t].Name == "" && 0 <= vpos[vs.typedValues[t].index] && vpos[vs.typedValues[t].index] < len(vs.values) && vs.values[vpos[vs.typedValues[t].index]] == vs.typedValues[t]))
+//@ ghost vsPart(vs *ValueSet, T reflect.Type, n int) bool = vsP0(vs, T, n) && vsP1(vs, T, n) && vsP2(vs, T, n) && vsP3(vs, T, n) && vsP4(vs, T, n) && vsP5(vs, T, n) && vsP6(vs, T, n) && vsP7(vs, T, n)
 //@ ghost vsOK(vs *ValueSet, T reflect.Type) bool = vsPart(vs, T, numField(T))
 
 //@ ghost vsKept() bool = kept(ValueSet, Value, valueInternal, []*Value, map[string]*Value, map[reflect.Type]*Value, map[string]string, []string, reflect.StructField)
 
 //@ func newValueSetFromStruct
 //@   requires typ != nil
-//@   ensures  [rejects-double-pointer] imp(ptrDepth(typ) > 1, result1 != nil)
-//@   ensures  [rejects-non-struct] imp(kindof(baseType(typ)) != 25, result1 != nil)
-//@   ensures  [accepts] imp(ptrDepth(typ) <= 1 && kindof(baseType(typ)) == 25, result1 == nil)
-//@   ensures  [mirrors-struct] imp(result1 == nil, vsOK(result0, baseType(typ)) && fresh(result0) && result0.structPointers == ptrDepth(typ) && !result0.isLifted)
+//@   ensures  [rejects-double-pointer] imp(ptrDepth(old(typ)) > 1, result1 != nil)
+//@   ensures  [rejects-non-struct] imp(kindof(baseType(old(typ))) != 25, result1 != nil)
+//@   ensures  [accepts] imp(ptrDepth(old(typ)) <= 1 && kindof(baseType(old(typ))) == 25, result1 == nil)
+//@   ensures  [mirrors-struct] imp(result1 == nil, vsOK(result0, baseType(old(typ))) && fresh(result0) && result0.structPointers == ptrDepth(old(typ)) && !result0.isLifted)
 //@   ensures  [error-means-nil] imp(result1 != nil, result0 == nil)
 //@   ensures  [frame] vsKept()
-//@   assigns  ValueSet, Value, valueInternal, []*Value, map[string]*Value, map[reflect.Type]*Value, map[string]string, []string, reflect.StructField, vpos
+//@   assigns  ValueSet, Value, valueInternal, []*Value, map[string]*Value, map[reflect.Type]*Value, map[string]string, []string, []interface{}, reflect.StructField, vpos
 //@   after "result.values = append(result.values, &value)" set vpos = update(vpos, i, len(result.values)-1)
 //@   loop 1 invariant typ != nil && baseType(typ) == baseType(old(typ)) && 0 <= ptrCount && ptrCount <= 255 && ptrDepth(old(typ)) == ptrDepth(typ) + ptrCount
 //@   loop 1 decreases ptrDepth(typ)
 //@   loop 2 invariant vsKept() && typ == baseType(old(typ)) && kindof(typ) == 25 && 0 <= i && i <= numField(typ) && ptrCount == ptrDepth(old(typ)) && ptrCount <= 1
 //@   loop 2 invariant result != nil && fresh(result) && result.structPointers == ptrCount && !result.isLifted && fresh(result.namedValues) && fresh(result.typedValues) && fresh(result.values)
 //@   loop 2 invariant forall(j, int, imp(0 <= j && j < len(result.values), fresh(result.values[j])))
-//@   loop 2 invariant vsPart(result, typ, i)
+//@   loop 2 invariant vsP0(result, typ, i)
+//@   loop 2 invariant vsP1(result, typ, i)
+//@   loop 2 invariant vsP2(result, typ, i)
+//@   loop 2 invariant vsP3(result, typ, i)
+//@   loop 2 invariant vsP4(result, typ, i)
+//@   loop 2 invariant vsP5(result, typ, i)
+//@   loop 2 invariant vsP6(result, typ, i)
+//@   loop 2 invariant vsP7(result, typ, i)
 //@   loop 2 decreases numField(typ) - i
 //@   loop 3 invariant vsKept() && typ == baseType(old(typ)) && kindof(typ) == 25 && 0 <= i && i < numField(typ) && ptrCount == ptrDepth(old(typ)) && ptrCount <= 1
 //@   loop 3 invariant result != nil && fresh(result) && result.structPointers == ptrCount && !result.isLifted && fresh(result.namedValues) && fresh(result.typedValues) && fresh(result.values)
 //@   loop 3 invariant forall(j, int, imp(0 <= j && j < len(result.values), fresh(result.values[j])))
-//@   loop 3 invariant vsPart(result, typ, i)
+//@   loop 3 invariant vsP0(result, typ, i)
+//@   loop 3 invariant vsP1(result, typ, i)
+//@   loop 3 invariant vsP2(result, typ, i)
+//@   loop 3 invariant vsP3(result, typ, i)
+//@   loop 3 invariant vsP4(result, typ, i)
+//@   loop 3 invariant vsP5(result, typ, i)
+//@   loop 3 invariant vsP6(result, typ, i)
+//@   loop 3 invariant vsP7(result, typ, i)
 //@   loop 3 invariant eligible(typ, i) && sf.Type == fieldType(typ, i) && tag == ftag(typ, i) && tag != "" && name == ite(splitAt(tag, ",", 0) != "", splitAt(tag, ",", 0), fieldName(typ, i))
 //@   loop 3 invariant options != nil && fresh(options) && len(parts) == splitLen(tag, ",") && fresh(parts) && forall(j, int, imp(0 <= j && j < len(parts), parts[j] == splitAt(tag, ",", j)))
 //@   loop 3 invariant forall(j, int, imp(1 <= j && j < 1 + idx3, has(options, optKey(parts[j]))))
